@@ -61,9 +61,12 @@ def codec(
     # `t` may name the type by reference or wrap it (`NewType`, alias, qualifier),
     #   the routine is bound to what it resolved to.
     bound = getattr(unmarshal, "t", t)
-    # A string-valued alias is resolved lazily, its routine is bound to the reference.
-    if inspection.isforwardref(bound):
-        with contextlib.suppress(NameError, TypeError):
+    # A string-valued alias is resolved lazily, its routine is bound to the reference
+    #   (which may name another such alias).
+    with contextlib.suppress(NameError, TypeError):
+        seen: set = set()
+        while inspection.isforwardref(bound) and bound not in seen:
+            seen.add(bound)
             bound = inspection.unwrap(refs.evaluate(bound))
     if inspection.isbytestype(t) or inspection.isbytestype(bound):
         cdc = cls(
